@@ -12,6 +12,7 @@ import (
 	"os"
 	"path"
 	"sort"
+	"strconv"
 	"strings"
 	"time"
 
@@ -202,6 +203,7 @@ type world struct {
 	tc     *mockcluster.Cluster
 	cancel context.CancelFunc
 	region *core.RegionInfo
+	rules  []string // CRule cases: the real leader-target filter on every store of the case
 }
 
 func buildWorld(c *caseIn) *world {
@@ -216,7 +218,8 @@ func buildWorld(c *caseIn) *world {
 	tc.SetScheduleConfig(sc)
 	tc.SetLocationLabels(locationLabels[:c.LocLabels])
 	lp := tc.GetLabelPropertyConfig().Clone()
-	lp[optRejectLeader] = []config.StoreLabel{{Key: "noleader", Value: "true"}}
+	// two properties of the type with the SAME label key (two DR sites): both values must be honoured
+	lp[optRejectLeader] = []config.StoreLabel{{Key: "noleader", Value: "true"}, {Key: "noleader", Value: "yes"}}
 	tc.SetLabelPropertyConfig(lp)
 	for _, s := range c.Stores {
 		if s.State == "absent" {
@@ -231,12 +234,24 @@ func buildWorld(c *caseIn) *world {
 		if s.State == "reject" {
 			labels["noleader"] = "true"
 		}
+		if s.State == "reject2" {
+			labels["noleader"] = "yes"
+		}
 		tc.AddLabelsStore(s.ID, 1, labels)
 		switch s.State {
 		case "offline":
 			tc.SetStoreOffline(s.ID)
 		case "down":
 			tc.SetStoreDown(s.ID)
+		case "restarted":
+			// silent for an hour, but its process registered again a few seconds ago (PutStore copies the start time) and
+			// has not sent a store heartbeat since: still down
+			tc.PutStore(tc.GetStore(s.ID).Clone(core.UpStore(), core.SetLastHeartbeatTS(time.Now().Add(-time.Hour)),
+				core.SetStoreStartTime(time.Now().Add(-5*time.Second).Unix())))
+		case "restarted-disconnected":
+			// the last store heartbeat is a minute old (disconnected: > 20 s), the process has just registered again
+			tc.PutStore(tc.GetStore(s.ID).Clone(core.UpStore(), core.SetLastHeartbeatTS(time.Now().Add(-time.Minute)),
+				core.SetStoreStartTime(time.Now().Add(-2*time.Second).Unix())))
 		case "disconnected":
 			tc.SetStoreDisconnect(s.ID)
 		case "busy":
@@ -472,8 +487,19 @@ func coqCluster(w *world, c *caseIn) string {
 		if st == nil {
 			continue
 		}
+		// whether the store may receive a leader is decided by the STATE THE CASE PUT IT IN (only a store that is up, connected,
+		// not busy, not evicted and not excluded by a reject-leader property may), not read back from the filter: the real
+		// filter's answer is compared with it (CRule case, below)
 		f := &filter.StoreStateFilter{ActionScope: "verif", TransferLeader: true}
-		ok := f.Target(tc.GetOpts(), st)
+		real := f.Target(tc.GetOpts(), st)
+		state := "up"
+		for _, sp := range c.Stores {
+			if sp.ID == id {
+				state = sp.State
+			}
+		}
+		ok := state == "up"
+		w.rules = append(w.rules, fmt.Sprintf("CRule %s %s", strconv.Quote(state), coqfmt.Bool(real)))
 		if ok && len(rules) > 0 {
 			ok = false
 			for _, r := range rules {
@@ -665,6 +691,7 @@ type caseOut struct {
 	In    caseIn       `json:"in"`
 	Exec  []execEntry  `json:"executor,omitempty"`
 	execCoq string
+	rules []string
 	Err   string       `json:"build_error,omitempty"`
 	Steps []string     `json:"steps,omitempty"`
 	Trace []traceEntry `json:"trace,omitempty"`
@@ -679,6 +706,7 @@ func runCase(rn *runner, c *caseIn) caseOut {
 	defer w.cancel()
 	out := caseOut{In: *c}
 	clusterTerm := coqCluster(w, c)
+	out.rules = w.rules
 	op, err := runBuilder(w, c)
 	var steps []operator.OpStep
 	outTerm := "BuildErr"
@@ -744,14 +772,14 @@ func runCase(rn *runner, c *caseIn) caseOut {
 
 // ---------- generators ----------
 
-var stateNames = []string{"up", "offline", "down", "disconnected", "busy", "tombstone", "evicted", "reject", "absent"}
+var stateNames = []string{"up", "offline", "down", "disconnected", "busy", "tombstone", "evicted", "reject", "absent", "restarted", "restarted-disconnected", "reject2"}
 
 func genStores(r *rng.R, n int, allUp bool, loc int) []storeSpec {
 	ss := make([]storeSpec, n)
 	for i := range ss {
 		st := "up"
 		if !allUp {
-			st = stateNames[r.Pick(66, 6, 6, 4, 3, 2, 5, 4, 4)]
+			st = stateNames[r.Pick(60, 5, 5, 4, 3, 2, 5, 4, 4, 3, 2, 3)]
 		}
 		lb := make([]int, loc)
 		for j := range lb {
@@ -1405,6 +1433,7 @@ func main() {
 		Footer: "Definition M := Eval vm_compute in map fst (mismatches cases).\nDefinition D := Eval vm_compute in hd_error (mismatches cases).\nDefinition V := Eval vm_compute in monitor_fails cases.\nPrint M. Print D. Print V.\n"}
 
 	var all []caseOut
+	seenRule := map[string]bool{}
 	emitProbe := func(pi *probeIn) {
 		po := runProbe(rn, pi)
 		R.Count("gen:probe")
@@ -1483,6 +1512,18 @@ func main() {
 			panic(err)
 		}
 		all = append(all, o)
+		for _, rl := range o.rules {
+			if seenRule[rl] {
+				continue
+			}
+			seenRule[rl] = true
+			R.Count("gen:leader-target-rule")
+			R.Case(rl, false)
+			if err := cf.Add(rl); err != nil {
+				panic(err)
+			}
+			all = append(all, caseOut{In: o.In, Steps: []string{rl}})
+		}
 		if o.execCoq != "" {
 			R.Count("gen:executor")
 			for _, e := range o.Exec {
